@@ -233,7 +233,18 @@ impl C16 {
                 3 => 256,
                 _ => rng.usize(257),
             };
-            let colors: Vec<(u8, u8, u8)> = (0..n).map(|_| gen_color(&mut rng, false)).collect();
+            let mut colors: Vec<(u8, u8, u8)> = (0..n).map(|_| gen_color(&mut rng, false)).collect();
+            // "arbitrary RGB colours" includes the ones an importer might take for padding or for a duplicate: black or white
+            // at the end or at the start, the same colour twice in a row, a palette of one colour repeated
+            if n > 0 && rng.chance(1, 4) {
+                let c = *rng.pick(&[(0u8, 0u8, 0u8), (255, 255, 255), (0, 0, 0), colors[0]]);
+                let m = 1 + rng.usize(n.min(4));
+                match rng.usize(4) {
+                    0 | 1 => colors[n - m..].iter_mut().for_each(|x| *x = c),
+                    2 => colors[..m].iter_mut().for_each(|x| *x = c),
+                    _ => colors.iter_mut().for_each(|x| *x = c),
+                }
+            }
             let names = (0..n).map(|_| if rng.chance(1, 4) { Some(gen_text(&mut rng)) } else { None }).collect();
             Case16::File {
                 fmt: FMTS[rng.usize(5)].into(),
@@ -377,7 +388,7 @@ impl Prop for C16 {
         "C16"
     }
     fn rule(&self) -> &'static str {
-        "(ops) seeded sequences of insert_color / insert_color_rgb / re-insert of a present colour / set_color(_rgb) / push / resize / get_rgb on palettes of 0..=300 colours run in lock-step with a Vec<(u8,u8,u8)> reference model (every third start colour, every third pushed and every second inserted Color carries a name: names are not part of a colour); after every insert: the returned index resolves to the colour, every index valid before resolves as before, a present colour returns an existing index. (file) palettes of 0..=256 random colours with empty / non-empty title, author, description (digits, '#', ';', blanks) and optional colour names exported to Hex, JASC PAL, GIMP GPL, ICE and Paint.NET TXT and imported again: same RGB sequence. (6bit) all 64^3 six-bit colours: as_vec_63(from_63(c)) == c and from_63 idempotent; ADF EGA codec round trip. distinct_nontrivial = distinct (op-kind sequence, start size) / (format, size, title/description present) / 6-bit red values"
+        "(ops) seeded sequences of insert_color / insert_color_rgb / re-insert of a present colour / set_color(_rgb) / push / resize / get_rgb on palettes of 0..=300 colours run in lock-step with a Vec<(u8,u8,u8)> reference model (every third start colour, every third pushed and every second inserted Color carries a name: names are not part of a colour); after every insert: the returned index resolves to the colour, every index valid before resolves as before, a present colour returns an existing index. (file) palettes of 0..=256 random colours - one in four with black, white or its first colour repeated at the end, at the start or throughout - with empty / non-empty title, author, description (digits, '#', ';', blanks) and optional colour names exported to Hex, JASC PAL, GIMP GPL, ICE and Paint.NET TXT and imported again: same RGB sequence. (6bit) all 64^3 six-bit colours: as_vec_63(from_63(c)) == c and from_63 idempotent; ADF EGA codec round trip. distinct_nontrivial = distinct (op-kind sequence, start size) / (format, size, title/description present) / 6-bit red values"
     }
     fn meta(&self, ctx: &Ctx) -> Value {
         json!({"floor_evaluations": 2000, "floor_distinct": ctx.tier.pick(1000u64, 5000u64),
